@@ -1,6 +1,7 @@
 (* Extraction of the checker for the premise `static_typed` of C01 / C02 (proofs/RtStaticCheck.v) and
-   of the executable test of `Topo` along model runs (proofs/TopoCheck.v). *)
+   of the executable test of `Topo` along model runs (proofs/TopoCheck.v), and of the two computable
+   premises prog_syn_ok / rt_syn_ok of the theorems of proofs/RtTheoremsTc.v. *)
 Require Import Coq.extraction.Extraction Coq.extraction.ExtrOcamlBasic Coq.extraction.ExtrOcamlString.
-Require Import Grits.Base Grits.Runtime Grits.proofs.RtStaticCheck Grits.proofs.TopoCheck.
+Require Import Grits.Base Grits.Runtime Grits.proofs.RtStaticCheck Grits.proofs.TopoCheck Grits.proofs.RtTheoremsTc.
 Extraction Language OCaml.
-Extraction "model_rtcheck.ml" static_check_text topo_check_text.
+Extraction "model_rtcheck.ml" static_check_text topo_check_text syn_premises_text.
